@@ -143,15 +143,24 @@ func (n *EvalNode) eval(expressions []stateful.Expression, p edge.FieldsTagsTime
 		if l := len(n.e.KeepList); l != 0 {
 			newFields = make(models.Fields, l)
 			for _, f := range n.e.KeepList {
-				// Try the vars scope first
-				if vars.Has(f) {
+				// Try the results of the expressions first.
+				// The scope also holds referenced tags and markers for missing
+				// references, these are not fields and cannot be kept.
+				isResult := false
+				for _, as := range n.e.AsList {
+					if as == f {
+						isResult = true
+						break
+					}
+				}
+				if isResult {
 					v, err := vars.Get(f)
 					if err != nil {
 						return err
 					}
 					newFields[f] = v
 				} else if v, ok := fields[f]; ok {
-					// Try the raw fields next, since it may not have been a referenced var.
+					// Try the raw fields next.
 					newFields[f] = v
 				} else {
 					return fmt.Errorf("cannot keep field %q, field does not exist", f)
